@@ -77,6 +77,12 @@ func seedFor(name string) uint64 {
 // is a pure function of VERIF_SEED, the test name and the shard number.
 // When -rapid.failfile is given (replay) rapid ignores seed and count.
 func Check(t *testing.T, quick, thorough int, prop func(*rapid.T)) {
+	if capturing != nil {
+		if *capturing == nil {
+			*capturing = prop
+		}
+		return
+	}
 	t.Helper()
 	n := N(quick, thorough)
 	if err := flag.Set("rapid.checks", strconv.Itoa(n)); err != nil {
